@@ -6,6 +6,7 @@ From Servitor.Facts Require Import HistoryFacts FeedFacts.
 (* History = list with a cursor: for every operation sequence the observations (current page,
    emptiness) after every step equal those of the zipper in which add drops the forward
    entries and nothing else, and back/forward saturate. *)
+
 Theorem history_refines_zipper :
   forall (A : Type) (ops : list (hop A)), h_run h_init ops = z_run z_init ops.
 Proof. exact history_refines_zipper_fact. Qed.
@@ -60,3 +61,42 @@ Example c18_example :
   f_obs (f_run (FCreate 7%nat) [FAppend [1;2]%nat; FPrepend [3]%nat; FDown; FDown; FDown; FUp; FCenter; FUp; FUp]) 1
   = (true, Ok (Some 7%nat), false, false).
 Proof. vm_compute. reflexivity. Qed.
+
+(* in every reachable state the slice holds exactly the content of the zipper (pages behind, current, pages ahead, in order) and the index is in bounds *)
+Theorem history_state_shape :
+  forall (A : Type) (ops : list (hop A)),
+  let h := fold_left h_step ops h_init in
+  let z := fold_left z_step ops z_init in
+  h_elems h = z_elems A z /\
+  (zc z <> None -> h_index h = length (zb z)) /\
+  (h_elems h = [] \/ h_index h < length (h_elems h)).
+Proof. exact history_state_shape_fact. Qed.
+Print Assumptions history_state_shape.
+
+(* back and forward are mutually inverse away from the ends and the identity at the ends (saturation) *)
+Theorem history_back_forward :
+  forall (A : Type) (z : zip A) (c : A),
+  zc z = Some c ->
+  (zb z <> [] -> z_step (z_step z HBack) HForward = z) /\
+  (zf z <> [] -> z_step (z_step z HForward) HBack = z) /\
+  (zb z = [] -> z_step z HBack = z) /\ (zf z = [] -> z_step z HForward = z).
+Proof. exact history_back_forward_fact. Qed.
+Print Assumptions history_back_forward.
+
+(* back and forward never change the stored pages *)
+Theorem history_moves_keep_elems :
+  forall (A : Type) (ops : list (hop A)) (o : hop A),
+  o = HBack \/ o = HForward ->
+  h_elems (h_step (fold_left h_step ops h_init) o) = h_elems (fold_left h_step ops h_init).
+Proof. exact history_moves_keep_elems_fact. Qed.
+Print Assumptions history_moves_keep_elems.
+
+(* opening a page keeps every entry up to the current one in place, drops exactly the forward entries, and shows the new page *)
+Theorem history_add_keeps_prefix :
+  forall (A : Type) (ops : list (hop A)) (x : A),
+  let h := fold_left h_step ops h_init in
+  h_elems h <> [] ->
+  h_elems (h_add h x) = firstn (h_index h + 1) (h_elems h) ++ [x] /\
+  length (h_elems (h_add h x)) = h_index h + 2 /\ h_current (h_add h x) = Some x.
+Proof. exact history_add_keeps_prefix_fact. Qed.
+Print Assumptions history_add_keeps_prefix.
